@@ -66,7 +66,7 @@ func (e *Env) AddServerWithKey(name string, key *refsrv.RSAKey) (*refsrv.Server,
 	e.Res.Addrs[name] = s.Addr()
 	if hs := e.Sc.HS; hs != nil {
 		s.NextHS = func() refsrv.HSParams {
-			return refsrv.HSParams{ServerNonce: hs.ServerNonce, P: hs.P, Q: hs.Q, PQPad8: hs.PQPad8, G: hs.G, A: hs.A, ServerTime: hs.ServerTime, PadSeed: hs.PadSeed, ExtraFingerprints: hs.ExtraFP, FingerprintsAfter: hs.ExtraFPAfter, Splits: hs.Splits}
+			return refsrv.HSParams{ServerNonce: hs.ServerNonce, P: hs.P, Q: hs.Q, PQPad8: hs.PQPad8, G: hs.G, A: hs.A, ServerTime: hs.ServerTime, PadSeed: hs.PadSeed, ExtraFingerprints: hs.ExtraFP, FingerprintsAfter: hs.ExtraFPAfter, Splits: hs.Splits, RetryFirst: hs.RetryFirst}
 		}
 	}
 	s.Fault = e.Sc.Fault
@@ -90,6 +90,9 @@ func (e *Env) WriteSession(authKey []byte, salt int64, host string) error {
 	binary.LittleEndian.PutUint64(sb, uint64(salt))
 	doc := map[string]string{"key": base64.StdEncoding.EncodeToString(authKey), "hash": base64.StdEncoding.EncodeToString(ref.AuthKeyID(authKey)),
 		"salt": base64.StdEncoding.EncodeToString(sb), "hostname": host}
+	if e.Sc.Resume != nil && e.Sc.Resume.NoHash {
+		doc["hash"] = ""
+	}
 	b, _ := json.Marshal(doc)
 	return os.WriteFile(e.SessionPath(), b, 0o600)
 }
